@@ -1,11 +1,14 @@
 # C10 parsing side: from_chars / strings::to_integer / strtol family / ato* / sto*
 PROPERTIES = ['C10', 'C02']
 BOUNDS = {
-    'quick': ('text length SN 0..4 enumerated, every character symbolic (all 256 values); from_chars and to_integer: 8- and 16-bit types with base symbolic 2..36 (overflow reachable), '
-              'unsigned/int/unsigned long/long with base symbolic, SN 0..3; strtol/strtoll/strtoul/strtoull/atoi/atol/atoll/stoi/stol/stoll/stoul/stoull: SN 0..4, base symbolic over {0, 2..36}; '
-              '64-bit overflow of strto* is outside the bound (needs >= 13 characters)'),
-    'thorough': ('SN 0..6 for the 8/16-bit types (base symbolic), SN 0..5 for 32/64-bit types and the strtol family; adds char, long long, unsigned long long; '
-                 '32-bit overflow: SN 7 and 8 with base 36 enumerated (from_chars, to_integer); base-10 overflow of 32/64-bit types (11/20 characters) is outside the bound'),
+    'quick': ('text length SN enumerated, every character symbolic over all 256 values (signs, white space, leading zeros, garbage, embedded NUL, lone minus are all included). '
+              'from_chars and strings::to_integer: unsigned char/signed char with base symbolic 2..36 for SN 0..2, every other type with base symbolic for SN 0..1; base enumerated {2,10,16,36} x SN 0..4 for the 8/16-bit types '
+              '(overflow by one digit and by one unit reachable), {10,16,36} x SN {0,1,3,4} for unsigned/int, {10,16} x SN {0,1,3,4} for unsigned long/long. '
+              'strtol, strtoll, strtoul, strtoull (with and without end pointer), atoi, atol, atoll, stoi, stol, stoll, stoul, stoull (with pos, null pos, defaults): SN 0..2 with base symbolic over {0, 2..36}, SN 3..4 with base {10,16}. '
+              'Outside: overflow of the 32/64-bit types (needs 7..20 characters), longer texts.'),
+    'thorough': ('quick grid plus: char, long long, unsigned long long; base symbolic up to SN 4 (8-bit) / SN 2 (all other types); 8-bit types SN 5..6 in bases {2,10,16,36}, 16-bit types SN 5..6 in bases {10,16}, base 8 for the 8/16-bit types; '
+                 '32-bit types SN 5 in bases {10,16} and 32-bit overflow with SN 7 in base 36; strtol family SN 3 with symbolic base, bases {8,36} for SN 3..4, base 10 for SN 5. '
+                 'Outside: base-10 overflow of 32/64-bit types (11/20 characters), overflow of strtol/strtoul themselves (>= 13 characters; the defect there is recorded from to_integer<narrow>, the shared implementation).'),
 }
 ASSUMPTIONS = [
     'C10/from_chars, to_integer: base in 2..36 (documented precondition); [first,last) is its own object of exactly SN bytes',
@@ -41,29 +44,30 @@ def queries(tier, prop='C10'):
     # ---- base symbolic over 2..36
     for t in narrow + wide:
         bits, s = TYPES[t]
-        nmax = {8: 4, 16: 3}.get(bits, 2) if thorough else {8: 2}.get(bits, 1)
+        nmax = {8: 4, 16: 2}.get(bits, 2) if thorough else {8: 2}.get(bits, 1)
         for n in range(0, nmax + 1):
             cfg = {'TY': t, 'SN': n, 'WOVF': int(can_overflow(t, n))}
-            sv, bud = ('minisat', 120) if not thorough else ('kissat', 900)
+            sv, bud = ('minisat', 120) if n <= (2 if bits == 8 else 1) else ('kissat', 900)
             both(cfg, sv, bud)
             if n in (0, 1, 3): out.append(q('q_from_chars_def', dict(cfg, WOVF=int(can_overflow(t, n, 10))), ub, sv, bud))
     # ---- base enumerated
     for t in narrow + wide:
         bits, s = TYPES[t]
-        if thorough: bases, ns = (2, 8, 10, 16, 36), (range(0, 7) if bits <= 16 else range(0, 6))
-        elif bits <= 16: bases, ns = (2, 10, 16, 36), range(0, 5)
-        elif bits == 32: bases, ns = (10, 16, 36), (0, 1, 3, 4)
-        else: bases, ns = (10, 16), (0, 1, 3, 4)
-        for b in bases:
-            for n in ns:
-                cfg = {'TY': t, 'SN': n, 'BASE': b, 'WOVF': int(can_overflow(t, n, b))}
-                sv, bud = ('minisat', 120) if n <= 4 else ('kissat', 900)
-                both(cfg, sv, bud)
-                if b == 10 and n in (3, 4): out.append(q('q_from_chars_def', cfg, ub, sv, bud))
+        if bits <= 16: grid = [(b, n) for b in (2, 10, 16, 36) for n in range(0, 5)]
+        elif bits == 32: grid = [(b, n) for b in (10, 16, 36) for n in (0, 1, 3, 4)]
+        else: grid = [(b, n) for b in (10, 16) for n in (0, 1, 3, 4)]
+        if thorough:
+            if bits == 8: grid += [(b, n) for b in (2, 10, 16, 36) for n in (5, 6)] + [(8, n) for n in range(0, 5)]
+            elif bits == 16: grid += [(b, n) for b in (10, 16) for n in (5, 6)] + [(8, n) for n in range(0, 5)]
+            elif bits == 32: grid += [(b, 5) for b in (10, 16)] + [(2, n) for n in (1, 4)]
+        for b, n in grid:
+            cfg = {'TY': t, 'SN': n, 'BASE': b, 'WOVF': int(can_overflow(t, n, b))}
+            sv, bud = ('minisat', 120) if n <= 4 else ('kissat', 900)
+            both(cfg, sv, bud)
+            if b == 10 and n in (3, 4): out.append(q('q_from_chars_def', cfg, ub, sv, bud))
     if thorough:
         for t in ('unsigned', 'int'):
-            for n in (7, 8):
-                both({'TY': t, 'SN': n, 'BASE': 36, 'WOVF': 1}, 'kissat', 900)
+            both({'TY': t, 'SN': 7, 'BASE': 36, 'WOVF': 1}, 'kissat', 900)
     # ---- strtol family, ato*, sto* (TY is irrelevant for them): base symbolic over {0, 2..36} for short texts, enumerated for longer ones
     ATO = ('q_atoi', 'q_atol', 'q_atoll', 'q_stoi_def')
     for n in range(0, (3 if thorough else 2) + 1):
@@ -71,11 +75,10 @@ def queries(tier, prop='C10'):
         sv, bud = ('minisat', 120) if n <= 2 else ('kissat', 900)
         for e in CFUNCS + (STOFUNCS if n >= 1 else []):
             out.append(q(e, cfg, ub, sv, bud))
-    for b in ((2, 8, 10, 16, 36) if thorough else (10, 16)):
-        for n in ((3, 4, 5) if thorough else (3, 4)):
-            cfg = {'TY': 'int', 'SN': n, 'BASE': b, 'WOVF': 0}
-            sv, bud = ('minisat', 120) if n <= 4 else ('kissat', 900)
-            for e in CFUNCS + STOFUNCS:
-                if e in ATO and b != 10: continue
-                out.append(q(e, cfg, ub, sv, bud))
+    for b, n in [(b, n) for b in (10, 16) for n in (3, 4)] + ([(b, n) for b in (8, 36) for n in (3, 4)] + [(10, 5)] if thorough else []):
+        cfg = {'TY': 'int', 'SN': n, 'BASE': b, 'WOVF': 0}
+        sv, bud = ('minisat', 120) if n <= 4 else ('kissat', 900)
+        for e in CFUNCS + STOFUNCS:
+            if e in ATO and b != 10: continue
+            out.append(q(e, cfg, ub, sv, bud))
     return out
